@@ -17,7 +17,7 @@ CHECKS = {
              "written in any mode derives only from that filtered result; Aligner.align sends the segments of all peaks "
              "through the injected AlignmentSegmentConflictResolver(SegmentChainer(SequentialityScorer)); the resolver "
              "walks {(i,i+1)} over the whole chain and writes both results back to their own slots; per-peak "
-             "de-duplication is one-per-key by query label and by reference label keeping the minimum distance. Added after the seeded rounds: second-pass label numbers refer to the whole query; overlapping segments are cut at indices from their own index tables and the conflict test sees every overlap (as C15.5/C15.6); records are joined only with equal orientation and reference (as C08.4). Round 3: the chainer refuses pairs overlapping by more than half (as C14.2). Round 4: a joined record is made only of segments resolved against each other (C01.10); the cut axis of conflict resolution follows the two peak positions and never the strand. Round 5: what is trimmed comes from the own sub-run (C01.11). Round 6: the conflicting sub-run handed to the trim reaches the end of the overlap whatever unpaired labels lie in it, and the label tables the cut is counted in hold every label of their side - pairs and the unpaired labels wrapped in ScoredNotAlignedPosition (C01.12, C01.13, as C15.4 / C15.8). Round 7: a memo in the alignment chain is keyed by every input of what it remembers (C01.14). Round 8: the pairwise pass has no exit that depends on what a segment looks like and its index generator is not a stride-2 zip; a one-per-key selection written as a filter on the smallest distance (all ties kept) is reported; label-table indexes are list indexes (as C15.8).",
+             "de-duplication is one-per-key by query label and by reference label keeping the minimum distance. Added after the seeded rounds: second-pass label numbers refer to the whole query; overlapping segments are cut at indices from their own index tables and the conflict test sees every overlap (as C15.5/C15.6); records are joined only with equal orientation and reference (as C08.4). Round 3: the chainer refuses pairs overlapping by more than half (as C14.2). Round 4: a joined record is made only of segments resolved against each other (C01.10); the cut axis of conflict resolution follows the two peak positions and never the strand. Round 5: what is trimmed comes from the own sub-run (C01.11). Round 6: the conflicting sub-run handed to the trim reaches the end of the overlap whatever unpaired labels lie in it, and the label tables the cut is counted in hold every label of their side - pairs and the unpaired labels wrapped in ScoredNotAlignedPosition (C01.12, C01.13, as C15.4 / C15.8). Round 7: a memo in the alignment chain is keyed by every input of what it remembers (C01.14). Round 8: the pairwise pass has no exit that depends on what a segment looks like and its index generator is not a stride-2 zip; a one-per-key selection written as a filter on the smallest distance (all ties kept) is reported; label-table indexes are list indexes (as C15.8); the chainer returns un-chained segments only when at most one is non-empty (C01.15, as C14.4).",
         note="That the final matching is one-to-one and collinear for every geometry is declined (value-level; the property "
              "text itself records fuzzing counter-examples); two constructs are reported as observations only.",
         tech="static analysis: source->sanitiser->sink flow per mode (R-FLOW), path/term rules on the resolver loop (R-PATH/R-TERM), typed constructor chain (R-TABLE)",
